@@ -835,6 +835,137 @@ def run_formulas(prop):
     return res
 
 
+# which translated per-metric functions (go/tables) a property is about.  C20 is about all of them; a score property is
+# about the Value / IsChanged methods its equations read (they are the *primitives* of the translated score functions).
+_V3B = ["T3.AttackVector_Value", "T3.AttackComplexity_Value", "T3.PrivilegesRequired_Value", "T3.UserInteraction_Value", "T3.Scope_IsChanged",
+        "T3.ConfidentialityImpact_Value", "T3.IntegrityImpact_Value", "T3.AvailabilityImpact_Value"]
+_V3T = ["T3.Exploitability_Value", "T3.RemediationLevel_Value", "T3.ReportConfidence_Value"]
+_V3E = ["T3.ConfidentialityRequirement_Value", "T3.IntegrityRequirement_Value", "T3.AvailabilityRequirement_Value", "T3.ModifiedAttackVector_Value",
+        "T3.ModifiedAttackComplexity_Value", "T3.ModifiedPrivilegesRequired_Value", "T3.ModifiedUserInteraction_Value", "T3.ModifiedScope_IsChanged",
+        "T3.ModifiedConfidentialityImpact_Value", "T3.ModifiedIntegrityImpact_Value", "T3.ModifiedAvailabilityImpact_Value",
+        "T3.ModifiedConfidentialityImpact_String", "T3.ModifiedIntegrityImpact_String", "T3.ModifiedAvailabilityImpact_String",
+        "T3.ModifiedAttackComplexity_String"]
+_V2B = ["T2.AccessVector_Value", "T2.AccessComplexity_Value", "T2.Authentication_Value", "T2.ConfidentialityImpact_Value", "T2.IntegrityImpact_Value",
+        "T2.AvailabilityImpact_Value"]
+_V2T = ["T2.Exploitability_Value", "T2.RemediationLevel_Value", "T2.ReportConfidence_Value"]
+_V2E = ["T2.CollateralDamagePotential_Value", "T2.TargetDistribution_Value", "T2.ConfidentialityRequirement_Value", "T2.IntegrityRequirement_Value",
+        "T2.AvailabilityRequirement_Value"]
+TABLE_DEFS = {
+    "C01": _V3B, "C02": _V3B + _V3T, "C03": _V3B + _V3T + _V3E, "C04": _V2B + _V2T, "C05": _V2B + _V2T + _V2E,
+    "C13": _V3B + _V3T + _V3E + _V2B + _V2T + _V2E, "C20": None,      # None: all of them
+}
+TAB_MODULE = "CvssVerif.Props.SrcTab"
+TAB_THEOREMS = ["v3_get_is_source", "v3_string_is_source", "v3_validity_is_source", "v3_values_are_source", "v3_labels_are_source",
+                "v2_get_is_source", "v2_string_is_source", "v2_value_is_source", "v2_validity_is_source", "v2_labels_are_source",
+                "reverse_lookups_are_deterministic"]
+_TABLES_CACHE = {}
+
+
+def _split_tab_blocks(txt):
+    """Generated/Tables.lean -> {"T3.GetAttackVector": text, "T3.tbl_x": text, ...}"""
+    import re
+    res, ns = {}, None
+    cur, buf = None, []
+    for line in txt.splitlines():
+        if line.startswith("namespace CvssVerif.Gen."):
+            ns = line.split(".")[-1]
+        m = re.match(r"-- @def (\S+)", line)
+        if m or line.startswith("end CvssVerif.Gen."):
+            if cur:
+                res[cur] = "\n".join(buf).strip()
+            cur, buf = ("%s.%s" % (ns, m.group(1)) if m else None), []
+            continue
+        if cur:
+            buf.append(line)
+    return res
+
+
+def run_tables(prop):
+    """regenerate lean/CvssVerif/Generated/Tables.lean from the text of the per-metric types of /repo (go/tables) and
+    re-check `Props/SrcTab.lean` (translated GetXxx / String / Value / validity / IsChanged = the model's, for every string
+    and every integer).  Same statuses as run_formulas: proved / not-understood / lost / lost-elsewhere."""
+    src = os.path.join(core.VERIF, "go", "tables")
+    out = os.path.join(core.BUILD, "tables")
+    dst = os.path.join(core.LEAN, "CvssVerif", "Generated", "Tables.lean")
+    refp = os.path.join(src, "reference.lean")
+    ref = open(refp).read()
+    res = {"status": "not-understood", "note": "", "changed": [], "relevant": [], "failed": [], "not_understood": [],
+           "translator": "go/tables (go/parser; statement-by-statement translation of the per-metric functions, map literals as sorted association lists)"}
+
+    def put(txt):
+        if not os.path.exists(dst) or open(dst).read() != txt:
+            open(dst, "w").write(txt)
+    try:
+        core.sh(["go", "build", "-o", out, "."], cwd=src, env=core.GOENV, timeout=300)
+        if os.path.exists(dst + ".new"):
+            os.remove(dst + ".new")
+        p = core.sh([out, core.REPO, dst + ".new", refp], timeout=120, check=False)
+        txt = p.stdout.strip()
+        res["note"] = txt[-1500:]
+        nu = []
+        for line in txt.splitlines():
+            if line.startswith("not-understood:"):
+                nu = line.split(":", 1)[1].split()
+        res["not_understood"] = nu
+        if p.returncode == 0 and txt.endswith("written=true") and os.path.exists(dst + ".new"):
+            new = open(dst + ".new").read()
+            os.remove(dst + ".new")
+            put(new)
+            a, b = _split_tab_blocks(ref), _split_tab_blocks(new)
+            res["changed"] = sorted(k for k in set(a) | set(b) if a.get(k) != b.get(k) and not k.endswith((".consts", ".revTables")))
+            res["functions"] = len([k for k in b if ".tbl_" not in k])
+            mine = TABLE_DEFS.get(prop)
+            rel = (lambda k: True) if mine is None else (lambda k: k in mine)
+            key = new
+            if key in _TABLES_CACHE:
+                ok, log = _TABLES_CACHE[key]
+            else:
+                ok, log = core.build_lean([TAB_MODULE])
+                _TABLES_CACHE[key] = (ok, log)
+            if ok:
+                res["status"] = "not-understood" if any(rel(k) for k in nu) else "proved"
+            else:
+                import re
+                pf = open(os.path.join(core.LEAN, "CvssVerif", "Proofs", "Tables.lean")).read().splitlines()
+                thm_at = []
+                for i, line in enumerate(pf, 1):
+                    m = re.match(r"theorem (\w+)", line)
+                    if m:
+                        thm_at.append((i, m.group(1)))
+                failed, unmapped = set(), False
+                for l in log.splitlines():
+                    if not l.startswith("error:"):
+                        continue
+                    m = re.search(r"Proofs/Tables\.lean:(\d+):", l)
+                    if m:
+                        ln = int(m.group(1))
+                        names = [n for (i, n) in thm_at if i <= ln]
+                        mm = re.match(r"(\w+)_(\d)$", names[-1]) if names else None
+                        if mm:
+                            failed.add("T%s.%s" % (mm.group(2), mm.group(1)))
+                            continue
+                        if names and names[-1].startswith("revTables_nodup"):
+                            failed.add("T%s.revTables" % names[-1][-1])
+                            continue
+                        unmapped = True
+                    elif "Generated/Tables.lean" in l or "Props/SrcTab.lean" in l:
+                        unmapped = True
+                if unmapped or not failed:
+                    failed = set(k for k in b if ".tbl_" not in k)
+                # a function that is not understood carries the reference text: an equality about it cannot fail because
+                # of the source; and an equality may fail only because it rewrites with one that failed (Value via String)
+                res["failed"] = sorted(failed)
+                res["relevant"] = [k for k in sorted(failed) if rel(k) or k.endswith(".revTables")]
+                res["status"] = "lost" if res["relevant"] else ("not-understood" if any(rel(k) for k in nu) else "lost-elsewhere")
+                errs = [l for l in log.splitlines() if l.startswith("error:")]
+                res["note"] = (" | ".join(e[:160] for e in errs))[:1500]
+            return res
+    except core.BuildError as e:
+        res["note"] = "go/tables failed: " + str(e)[-600:]
+    put(ref)
+    return res
+
+
 def run_effects():
     """regenerate lean/CvssVerif/Generated/Effects.lean from /repo (write-set facts: translator tie of C15/C16);
     returns the rows that are not what the model assumes (for the report), [] when all is as expected"""
